@@ -268,31 +268,31 @@ static void DecodeAdr(tStrComp const* pArg) {
     DispAcc   = 0;
     FoundSize = -1;
     StrCompRefRight(&Arg, pArg, 0);
-    if (!as_strncasecmp(Arg.str.p_str, "WORD PTR", 8)) {
-        StrCompIncRefLeft(&Arg, 8);
-        FoundSize = 1;
-        IsImm     = False;
-        KillPrefBlanksStrCompRef(&Arg);
-    } else if (!as_strncasecmp(Arg.str.p_str, "BYTE PTR", 8)) {
-        StrCompIncRefLeft(&Arg, 8);
-        FoundSize = 0;
-        IsImm     = False;
-        KillPrefBlanksStrCompRef(&Arg);
-    } else if (!as_strncasecmp(Arg.str.p_str, "DWORD PTR", 9)) {
-        StrCompIncRefLeft(&Arg, 9);
-        FoundSize = 2;
-        IsImm     = False;
-        KillPrefBlanksStrCompRef(&Arg);
-    } else if (!as_strncasecmp(Arg.str.p_str, "QWORD PTR", 9)) {
-        StrCompIncRefLeft(&Arg, 9);
-        FoundSize = 3;
-        IsImm     = False;
-        KillPrefBlanksStrCompRef(&Arg);
-    } else if (!as_strncasecmp(Arg.str.p_str, "TBYTE PTR", 9)) {
-        StrCompIncRefLeft(&Arg, 9);
-        FoundSize = 4;
-        IsImm     = False;
-        KillPrefBlanksStrCompRef(&Arg);
+    {
+        /* <size> PTR: any white space may stand between the two words */
+
+        static char const* const SizeNames[] = {"BYTE", "WORD", "DWORD", "QWORD", "TBYTE"};
+        int                      Size;
+
+        for (Size = 0; Size < 5; Size++) {
+            size_t      l = strlen(SizeNames[Size]);
+            char const* p = Arg.str.p_str;
+
+            if (!as_strncasecmp(p, SizeNames[Size], l) && as_isspace(p[l])) {
+                char const* q = p + l;
+
+                while (as_isspace(*q)) {
+                    q++;
+                }
+                if (!as_strncasecmp(q, "PTR", 3)) {
+                    StrCompIncRefLeft(&Arg, (q + 3) - p);
+                    FoundSize = Size;
+                    IsImm     = False;
+                    KillPrefBlanksStrCompRef(&Arg);
+                    break;
+                }
+            }
+        }
     }
 
     if ((strlen(Arg.str.p_str) > 2) && (Arg.str.p_str[2] == ':')) {
